@@ -232,98 +232,135 @@ func runC09(c *Ctx) {
 		c.Ob("MARKER-LAST", pf+"/no-write-after-marker", marker.Pos(), true, true, "no write call is reachable after the marker write")
 	}
 	nPre := 0
-	for _, call := range callsIn(putFn) {
-		if call.Instr == marker.Instr || call.Value == nil {
-			continue
-		}
-		ev := errValueOf(call)
-		if ev == nil {
-			continue
-		}
-		if !instrReaches(call.Instr, marker.Instr) {
-			continue
-		}
-		nPre++
-		name := calleeName(call.Call)
-		inst := pf + "/" + name
-		// the tolerated classification: re-read of the marker itself (not-exist means "go on and write")
-		isMarkerRead := isStorageFn(call.Call, "ReadPath") && len(call.Call.Args) >= 3 && isMarkerPath(call.Call.Args[2])
-		tested := false
-		leak := ""
-		if isMarkerRead {
-			// gate: a nil-test T of the error dominating the marker write whose failing edge leads to an
-			// errors.Is classification; the not-classified (errors.Is false) edge must not reach the marker.
-			gate := false
-			for _, blk := range putFn.Blocks {
-				i := ifOf(blk)
-				if i == nil {
-					continue
-				}
-				x, trueIsNonNil, ok := nilCompare(i.Cond)
-				if !ok || stripConv(x) != ev || blockReachesAvoiding(call.Instr.Block(), marker.Instr.Block(), blk) {
-					continue // some path from the read to the marker write bypasses this test
-				}
-				tested = true
-				nonNilSucc := blk.Succs[1]
-				if trueIsNonNil {
-					nonNilSucc = blk.Succs[0]
-				}
-				for _, cb := range putFn.Blocks {
-					ci := ifOf(cb)
-					if ci == nil || !nonNilSucc.Dominates(cb) {
-						continue
-					}
-					cv, pos := condPolarity(ci.Cond)
-					call, isCall := cv.(*ssa.Call)
-					if !isCall || !calleeIs(staticCalleeObj(&call.Call), "errors", "Is") || stripConv(call.Call.Args[0]) != ev {
-						continue
-					}
-					isFalseSucc := cb.Succs[1]
-					if !pos {
-						isFalseSucc = cb.Succs[0]
-					}
-					if !blockReaches(isFalseSucc, marker.Instr.Block()) {
-						gate = true
-					}
-				}
+	checkPre := func(putFn *ssa.Function, markerInstr ssa.Instruction, pf string) {
+		for _, call := range callsIn(putFn) {
+			if call.Instr == markerInstr || call.Value == nil {
+				continue
 			}
-			if tested && !gate {
-				leak = "marker re-read error reaches the marker write without an errors.Is(err, fs.ErrNotExist) classification"
+			ev := errValueOf(call)
+			if ev == nil {
+				continue
 			}
-		} else {
-			for _, blk := range putFn.Blocks {
-				i := ifOf(blk)
-				if i == nil {
-					continue
-				}
-				x, trueIsNonNil, ok := nilCompare(i.Cond)
-				if !ok || stripConv(x) != ev {
-					continue
-				}
-				tested = true
-				nonNilSucc := blk.Succs[1]
-				if trueIsNonNil {
-					nonNilSucc = blk.Succs[0]
-				}
-				if blockReaches(nonNilSucc, marker.Instr.Block()) && !edgeDominates(blk, !trueIsNonNil, marker.Instr.Block()) {
-					leak = "the marker write is reachable from the failing edge of this call"
-				}
+			if !instrReaches(call.Instr, markerInstr) {
+				continue
 			}
-		}
-		switch {
-		case !tested && valueConsumedOnlyByReturn(ev):
-			c.Ob("MARKER-AFTER-SUCCESS", inst, call.Pos(), true, false, "error is returned directly")
-		case !tested:
-			c.Ob("MARKER-AFTER-SUCCESS", inst, call.Pos(), false, true, "error of %s is never tested although the marker write can follow it", name)
-		case leak != "":
-			c.Ob("MARKER-AFTER-SUCCESS", inst, call.Pos(), false, true, "%s", leak)
-		default:
-			msg := "marker write lies only on the nil edge of this call's error"
+			nPre++
+			name := calleeName(call.Call)
+			inst := pf + "/" + name
+			// the tolerated classification: re-read of the marker itself (not-exist means "go on and write")
+			isMarkerRead := isStorageFn(call.Call, "ReadPath") && len(call.Call.Args) >= 3 && isMarkerPath(call.Call.Args[2])
+			tested := false
+			leak := ""
 			if isMarkerRead {
-				msg = "marker re-read: failing edge continues only through the errors.Is(err, fs.ErrNotExist) classification"
+				// gate: a nil-test T of the error dominating the marker write whose failing edge leads to an
+				// errors.Is classification; the not-classified (errors.Is false) edge must not reach the marker.
+				gate := false
+				for _, blk := range putFn.Blocks {
+					i := ifOf(blk)
+					if i == nil {
+						continue
+					}
+					x, trueIsNonNil, ok := nilCompare(i.Cond)
+					if !ok || stripConv(x) != ev || blockReachesAvoiding(call.Instr.Block(), markerInstr.Block(), blk) {
+						continue // some path from the read to the marker write bypasses this test
+					}
+					tested = true
+					nonNilSucc := blk.Succs[1]
+					if trueIsNonNil {
+						nonNilSucc = blk.Succs[0]
+					}
+					for _, cb := range putFn.Blocks {
+						ci := ifOf(cb)
+						if ci == nil || !nonNilSucc.Dominates(cb) {
+							continue
+						}
+						cv, pos := condPolarity(ci.Cond)
+						call, isCall := cv.(*ssa.Call)
+						if !isCall || !calleeIs(staticCalleeObj(&call.Call), "errors", "Is") || stripConv(call.Call.Args[0]) != ev {
+							continue
+						}
+						isFalseSucc := cb.Succs[1]
+						if !pos {
+							isFalseSucc = cb.Succs[0]
+						}
+						if !blockReaches(isFalseSucc, markerInstr.Block()) {
+							gate = true
+						}
+					}
+				}
+				if tested && !gate {
+					leak = "marker re-read error reaches the marker write without an errors.Is(err, fs.ErrNotExist) classification"
+				}
+			} else {
+				for _, blk := range putFn.Blocks {
+					i := ifOf(blk)
+					if i == nil {
+						continue
+					}
+					x, trueIsNonNil, ok := nilCompare(i.Cond)
+					if !ok || stripConv(x) != ev {
+						continue
+					}
+					tested = true
+					nonNilSucc := blk.Succs[1]
+					if trueIsNonNil {
+						nonNilSucc = blk.Succs[0]
+					}
+					if blockReaches(nonNilSucc, markerInstr.Block()) && !edgeDominates(blk, !trueIsNonNil, markerInstr.Block()) {
+						leak = "the marker write is reachable from the failing edge of this call"
+					}
+				}
 			}
-			c.Ob("MARKER-AFTER-SUCCESS", inst, call.Pos(), true, true, "%s", msg)
+			switch {
+			case !tested && valueConsumedOnlyByReturn(ev):
+				c.Ob("MARKER-AFTER-SUCCESS", inst, call.Pos(), true, false, "error is returned directly")
+			case !tested:
+				c.Ob("MARKER-AFTER-SUCCESS", inst, call.Pos(), false, true, "error of %s is never tested although the marker write can follow it", name)
+			case leak != "":
+				c.Ob("MARKER-AFTER-SUCCESS", inst, call.Pos(), false, true, "%s", leak)
+			default:
+				msg := "marker write lies only on the nil edge of this call's error"
+				if isMarkerRead {
+					msg = "marker re-read: failing edge continues only through the errors.Is(err, fs.ErrNotExist) classification"
+				}
+				c.Ob("MARKER-AFTER-SUCCESS", inst, call.Pos(), true, true, "%s", msg)
+			}
 		}
+	}
+	checkPre(putFn, marker.Instr, pf)
+	// the write phase may have been split off: the fallible calls that precede the call of the function holding the
+	// marker write, in its (single) caller, are held to the same rule - the call stands for the marker write
+	writerEntry := putFn
+	holdsLock := func(f *ssa.Function) bool {
+		for _, call := range callsDeep(f) {
+			if call.Call.IsInvoke() && call.Call.Method.Name() == "Lock" && strings.HasSuffix(namedPath(call.Call.Value.Type()), "filelock.Locker") {
+				return true
+			}
+		}
+		return false
+	}
+	for level, cur := 0, putFn; level < 2 && !holdsLock(cur); level++ {
+		var callers []ssaCall
+		var callerFn *ssa.Function
+		for _, sf := range p.SSAFuncsOf([]*packages.Package{pkStore}) {
+			for _, f := range allSSAFuncs(sf) {
+				for _, call := range callsIn(f) {
+					if call.Call.StaticCallee() == cur {
+						callers = append(callers, call)
+						callerFn = f
+					}
+				}
+			}
+		}
+		if len(callers) != 1 || callerFn == cur {
+			break
+		}
+		// only continue upwards through unexported helpers
+		if cur.Object() != nil && cur.Object().Exported() {
+			break
+		}
+		checkPre(callerFn, callers[0].Instr, ssaFuncName(callerFn))
+		writerEntry, cur = callerFn, callerFn
 	}
 	if nPre < 8 {
 		c.Fail("MARKER-AFTER-SUCCESS", "count", putFn.Pos(), "only %d fallible calls precede the marker write (expected ≥ 8: dir/lock paths, locks, re-reads, DepModuleKeys, Bucket, Copy, side files, MarshalYAML)", nPre)
@@ -463,7 +500,9 @@ func runC09(c *Ctx) {
 		c.Fail("READER", "GetModuleDatasForModuleKeys", token.NoPos, "not found")
 	}
 
-	c09Locks(c, pkStore, putFn, getFn)
+	c09Locks(c, pkStore, writerEntry, getFn)
+	// the marker's atomic put relies on the disk bucket's atomic writer (shared with C15): a failed write must not be renamed into place
+	c15AtomicWriter(c)
 	c09Tamper(c)
 	c09Provider(c)
 }
@@ -563,9 +602,30 @@ func c09Locks(c *Ctx, pk *packages.Package, putFn, getFn *ssa.Function) {
 					}
 				}
 			}
-			for _, w := range []string{"Copy", "PutPath", "CopyPath", "CopyReader"} {
-				if calleeIs(fn, "private/pkg/storage", w) {
-					writes = append(writes, call)
+			isStorageWrite := func(f *types.Func) bool {
+				for _, w := range []string{"Copy", "PutPath", "CopyPath", "CopyReader"} {
+					if calleeIs(f, "private/pkg/storage", w) {
+						return true
+					}
+				}
+				return false
+			}
+			if isStorageWrite(fn) {
+				writes = append(writes, call)
+			} else if fn.Pkg() != nil && fn.Pkg().Path() == pk.PkgPath && fn.Name() != "getWriteBucketAndCallbackForTar" {
+				// a package function that performs the cache writes (the write phase split off into a helper): calling
+				// it is a cache write
+				if hd := p.DeclOf(fn); hd != nil && hd.Decl.Body != nil && hd.Decl != fd {
+					w := false
+					ast.Inspect(hd.Decl.Body, func(m ast.Node) bool {
+						if hc, ok := m.(*ast.CallExpr); ok && isStorageWrite(Callee(info, hc)) {
+							w = true
+						}
+						return true
+					})
+					if w {
+						writes = append(writes, call)
+					}
 				}
 			}
 			return true
